@@ -561,8 +561,14 @@ class Scenario:
                 redeem = InputScript(template=InputScript.TIME_LOCK_SCRIPT,
                                      values={'height': rnd.choice([1, 127, 128, 717738, 2 ** 31 - 1]), 'pubkey_hash': env.extra_pkh})
                 prev = Output.pay_script_hash(amount, hash160(redeem.source))
-            prev.tx_ref = TXRefImmutable.from_hash(rnd.randbytes(32), rnd.choice([-1, 0, 5, 1000000]))
-            prev.position = rnd.choice(NOUTS)
+            if j > 0 and rnd.random() < 0.4:
+                # several inputs spend DIFFERENT outputs of the SAME previous transaction (same txid, another position)
+                prev.tx_ref = self.prev_txos[0].tx_ref
+                used = {p.position for p in self.prev_txos if p.tx_ref is prev.tx_ref}
+                prev.position = next(n for n in list(NOUTS) + list(range(7, 60)) if n not in used)
+            else:
+                prev.tx_ref = TXRefImmutable.from_hash(rnd.randbytes(32), rnd.choice([-1, 0, 5, 1000000]))
+                prev.position = rnd.choice(NOUTS)
             txi = Input.spend_time_lock(prev, redeem.source) if kinds[j] == 'timelock' else Input.spend(prev)
             txi.sequence = rnd.choice(SEQS) if rnd.random() < 0.8 else rnd.getrandbits(32)
             self.prev_txos.append(prev)
